@@ -280,3 +280,4 @@ LEVEL_TEXT = ('Exploration over generated programs: hundreds of expression trees
               'operator combinations not drawn are not judged.')
 LEVEL_NOTE = 'trusted: host scalar arithmetic and libm as reference; -ffp-contract=off removes compiler FMA contraction from both sides; generator prints both forms from one tree (a printer bug would affect both forms differently and show up as a mismatch)'
 DESIGN_REF = 'DESIGN.md section 8 C02'
+THOROUGH_NATIVE = True      # this module's own thorough product (covering sample of 320 pairs) was soaked to silence
